@@ -67,9 +67,16 @@ Eval(e, st, fuel) ==
     [] e.k = "tab" ->      \* (SELECT n FROM t): the innermost temporary table of that name
          LET i == FindTab(st.blocks, e.t, 1) IN
          IF i = 0 THEN Fail(st, "FileNotExist") ELSE Flow(st, "next", st.blocks[i].tabs[e.t])
+    [] e.k = "aggq" ->     \* (SELECT f(n) FROM t): the innermost function of that name decides - a user-defined aggregate
+                           \* function receives the list of the table's values, a scalar one is called for each record
+         LET i == FindTab(st.blocks, e.t, 1) IN
+         IF i = 0 THEN Fail(st, "FileNotExist") ELSE Call(e.f, st.blocks[i].tabs[e.t], st, fuel)
     [] e.k = "call" ->
          LET a == Eval(e.a, st, fuel) IN
-         IF a.flow # "next" THEN a ELSE Call(e.f, a.v, a.st, fuel)
+         IF a.flow # "next" THEN a
+         ELSE LET i == FindFun(a.st.blocks, e.f, 1) IN
+              IF i # 0 /\ a.st.blocks[i].funs[e.f].agg THEN Flow(a.st, "next", 0)    \* an aggregate function used outside a query receives the empty list
+              ELSE Call(e.f, a.v, a.st, fuel)
 
 \* a user-defined function: new block on top of the caller's chain holding the parameter; the body runs there;
 \* RETURN gives the value (NULL without RETURN); the block is dropped afterwards
@@ -77,6 +84,7 @@ Call(f, arg, st, fuel) ==
   LET i == FindFun(st.blocks, f, 1) IN
   IF i = 0 THEN Fail(st, "FunctionNotExist")
   ELSE IF fuel = 0 THEN Flow(st, "fuel", Null)
+  ELSE IF st.blocks[i].funs[f].agg THEN Flow(st, "next", IF arg = Null THEN Null ELSE arg + 100)   \* DECLARE f AGGREGATE: the fixed body sums v + 100 over the list (one value here)
   ELSE LET def == st.blocks[i].funs[f]
            inner0 == [st EXCEPT !.blocks = <<Block([x \in {def.p} |-> arg], NoVars)>> \o st.blocks]
            \* an optional second parameter (def.q # ""): its DEFAULT expression is evaluated at EVERY call that omits it, in
@@ -192,7 +200,7 @@ Exec(s, st, fuel) ==
          IF i = 0 THEN Fail(st, "UndeclaredTemporaryTable") ELSE Ok([st EXCEPT !.blocks[i].tabs = Remove(@, s.t)])
     [] s.k = "func" ->     \* DECLARE f FUNCTION (@p) AS BEGIN body END
          IF s.f \in DOMAIN st.blocks[1].funs THEN Fail(st, "FunctionRedeclared")     \* same block only: inner blocks may shadow
-         ELSE Ok([st EXCEPT !.blocks[1].funs = (s.f :> [p |-> s.p, body |-> s.body, q |-> s.q, d |-> s.d]) @@ @])
+         ELSE Ok([st EXCEPT !.blocks[1].funs = (s.f :> [p |-> s.p, body |-> s.body, q |-> s.q, d |-> s.d, agg |-> s.agg]) @@ @])     \* functions and aggregate functions share the name space
 
 ExecList(ss, st, fuel) ==
   IF ss = <<>> THEN Ok(st)
